@@ -3,7 +3,7 @@
 //! Request: `C15.res \t <dx|vk|vkba|msl> \t <descriptor>`; descriptor grammar (space separated):
 //!   ns N … end | st S m… end | en E v… end | gl <s|c|g> NAME | rs KIND OPTS NAME | cb NAME OPTS m… end |
 //!   fn NAME <ptypes|-> p… { stmts } | ef <c|v|p> NAME p… { stmts } | pl NAME F<k>[,F<j>] <d<k>|->
-//!   stmts: lv NAME | { stmts } | use <G|F|L><k> | use V<e>.<i> | use D<c>.<i> | use S<k> | use E<k>
+//!   stmts: lv NAME | { stmts } | use <G|F|L><k> | use V<e>.<i> | use D<c>.<i> | use S<k> | use E<k> | use W<0|1> (WaveGetLaneIndex / WaveGetLaneCount)
 //!   OPTS: `-` or a concatenation of a<n> (array length) b (bindless) g<k> (bind group) s<k> (element struct ordinal)
 //! The program is printed as RSSL with a `Pipeline` block, compiled by the real `compile()` for the target
 //! (text + reflection metadata), and the syntax tree the exporter hands to the formatter is obtained through the
@@ -497,6 +497,9 @@ fn src_stmts(ss: &[Stmt], t: &RTable, out: &mut String, depth: usize) {
                 out.push_str(&"    ".repeat(depth));
                 out.push_str("}\n");
             }
+            // W0 / W1: the wave intrinsics the Metal exporter serves through an implicit parameter
+            Stmt::Use(r) if r == "W0" => out.push_str("WaveGetLaneIndex();\n"),
+            Stmt::Use(r) if r == "W1" => out.push_str("WaveGetLaneCount();\n"),
             Stmt::Use(r) => match parse_ref(r).and_then(|k| t.get(k)) {
                 Some(e) if e.key.0 == 'L' => out.push_str(&format!("{};\n", e.name)),
                 Some(e) if e.key.0 == 'F' && e.info.starts_with('#') => out.push_str("0;\n"),
@@ -1574,9 +1577,88 @@ pub fn sweep_programs(n: &str) -> Vec<String> {
     v
 }
 
+/// deterministic sweep: the name next to the implicit parameters the Metal exporter adds to every function that uses
+/// WaveGetLaneIndex / WaveGetLaneCount directly or through a callee (`uint thread_index_in_simdgroup`,
+/// `uint threads_per_simdgroup`, passed on at every call and created by the entry wrapper)
+pub fn wave_sweep_programs(n: &str) -> Vec<String> {
+    let mut v = Vec::new();
+    // entry parameter / helper parameter / helper local / local of a caller that only passes the values on
+    v.push(format!("ef c zqe {} {{ use W0 use W1 use L0 }} pl zqP F0 -", n));
+    v.push(format!("fn zqf i {} {{ use W0 use W1 use L0 }} ef c zqe zqp {{ use F0 }} pl zqP F1 -", n));
+    v.push(format!("fn zqf - {{ lv {} use W1 use W0 use L0 }} ef c zqe zqp {{ use F0 }} pl zqP F1 -", n));
+    v.push(format!("fn zqf - {{ use W0 use W1 }} ef c zqe zqp {{ lv {} use F0 use L1 }} pl zqP F1 -", n));
+    v.push(format!("fn zqf - {{ use W1 }} fn zqg i {} {{ use F0 use L0 }} ef c zqe zqp {{ use F1 }} pl zqP F2 -", n));
+    // a threaded global / a resource of that name next to the implicit parameters
+    v.push(format!("gl s {} fn zqf - {{ use G0 use W0 use W1 }} ef c zqe zqp {{ use F0 }} pl zqP F1 -", n));
+    v.push(format!("rs tex - {} fn zqf - {{ use W1 use G0 }} ef c zqe zqp {{ use F0 use W0 use G0 }} pl zqP F1 -", n));
+    // function / entry point / namespace of that name
+    v.push(format!("fn {} - {{ use W0 use W1 }} ef c zqe zqp {{ use F0 }} pl zqP F1 -", n));
+    v.push(format!("ef c {} zqp {{ use W1 use W0 }} pl zqP F0 -", n));
+    v.push(format!("ns {} fn zqf - {{ use W0 }} end ef c zqe zqp {{ use F0 use W1 }} pl zqP F1 -", n));
+    // block-scoped local, no pipeline
+    v.push(format!("fn zqf i zqp {{ use W1 {{ lv {} use W0 use W1 use L1 }} use W1 }}", n));
+    v
+}
+
+/// identifiers the exporters write into the output by themselves, read from the source tree: every `pub const … : &str`
+/// of both `names.rs` and every string literal handed to `ScopedIdentifier::trivial(…)` in the generators (a superset of
+/// the names that are declared next to user entities; it only feeds the sweep, so a superset is harmless), plus the
+/// numbered forms of the `format!` prefixes
+pub fn introduced_from_source() -> Vec<String> {
+    let root = super::repo_root();
+    let mut out: Vec<String> = Vec::new();
+    let mut push = |n: &str| {
+        if is_ident(n) && !STRUCTURE.contains(&n) && !out.iter().any(|o| o == n) {
+            out.push(n.to_string());
+        }
+    };
+    for krate in ["hlsl", "msl"] {
+        let text = std::fs::read_to_string(format!("{}/{}/src/names.rs", root, krate)).unwrap_or_default();
+        for line in text.lines() {
+            if let Some(rest) = line.trim().strip_prefix("pub const ") {
+                if let Some((_, val)) = rest.split_once(": &str = ") {
+                    push(val.trim().trim_end_matches(';').trim_matches('"'));
+                }
+            }
+        }
+    }
+    for f in ["msl/src/generator.rs", "msl/src/generator/pipeline.rs", "hlsl/src/ast_generate.rs"] {
+        let text = std::fs::read_to_string(format!("{}/{}", root, f)).unwrap_or_default();
+        for key in ["ScopedIdentifier::trivial(", "Located::none(String::from(", "format!("] {
+            let mut at = 0;
+            while let Some(i) = text[at..].find(key) {
+                let st = at + i + key.len();
+                at = st;
+                let rest = text[st..].trim_start();
+                let rest = rest.strip_prefix('&').unwrap_or(rest);
+                if let Some(r) = rest.strip_prefix('"') {
+                    if let Some(e) = r.find('"') {
+                        let lit = &r[..e];
+                        if key == "format!(" {
+                            // `set{}` / `InlineDescriptor{}` / `g_inlineDescriptor{set}`: the numbered forms
+                            if let Some(b) = lit.find('{') {
+                                if lit.ends_with('}') && is_ident(&lit[..b]) && lit[..b].len() >= 3 {
+                                    for k in 0..2 {
+                                        push(&format!("{}{}", &lit[..b], k));
+                                    }
+                                }
+                            }
+                        } else {
+                            push(lit);
+                        }
+                    }
+                }
+            }
+        }
+    }
+    out
+}
+
 struct RGen<'a> {
     rng: &'a mut Rng,
     pool: Vec<String>,
+    /// wave stream: bodies also use WaveGetLaneIndex / WaveGetLaneCount
+    waves: bool,
     /// names declared so far per source scope (key = namespace path)
     taken: HashMap<String, HashSet<String>>,
     path: Vec<String>,
@@ -1636,6 +1718,7 @@ impl<'a> RGen<'a> {
                     out.push(Stmt::Block(b));
                 }
                 3 if !visible.is_empty() => out.push(Stmt::Use(format!("L{}", self.rng.pick(visible)))),
+                4 | 5 if self.waves => out.push(Stmt::Use(format!("W{}", self.rng.below(2)))),
                 _ if !self.refs.is_empty() => out.push(Stmt::Use(self.rng.pick(&self.refs).clone())),
                 _ => {}
             }
@@ -1796,6 +1879,12 @@ impl<'a> RGen<'a> {
 }
 
 pub fn random_program(rng: &mut Rng, ordinary: &[String], special: &[String]) -> Vec<RItem> {
+    random_program_with(rng, ordinary, special, None)
+}
+
+/// `waves = Some(introduced names)`: the wave stream — bodies use the wave intrinsics, the name pool takes names the
+/// exporters introduce themselves (implicit parameters first)
+pub fn random_program_with(rng: &mut Rng, ordinary: &[String], special: &[String], waves: Option<&[String]>) -> Vec<RItem> {
     let mut pool = Vec::new();
     for _ in 0..1 + rng.below(3) {
         pool.push(rng.pick(ordinary).clone());
@@ -1806,7 +1895,24 @@ pub fn random_program(rng: &mut Rng, ordinary: &[String], special: &[String]) ->
     if rng.chance(1, 3) {
         pool.push((*rng.pick(GENERATED_NAMES)).to_string());
     }
-    let mut g = RGen { rng, pool, taken: HashMap::new(), path: vec![], refs: vec![], structs: vec![], counts: HashMap::new() };
+    if let Some(intro) = waves {
+        if rng.chance(2, 3) {
+            pool.push(if rng.chance(1, 2) { "threads_per_simdgroup" } else { "thread_index_in_simdgroup" }.to_string());
+        }
+        if !intro.is_empty() && rng.chance(1, 2) {
+            pool.push(rng.pick(intro).clone());
+        }
+    }
+    let mut g = RGen {
+        rng,
+        pool,
+        waves: waves.is_some(),
+        taken: HashMap::new(),
+        path: vec![],
+        refs: vec![],
+        structs: vec![],
+        counts: HashMap::new(),
+    };
     let n = 2 + g.rng.below(6) as usize;
     let mut items = g.items(0, n);
     match g.rng.below(10) {
@@ -1905,10 +2011,17 @@ pub fn generate(args: &Args, special: &[String], cx: &mut RCtx, out: &mut Out) -
     let mut swept = 0u64;
     let stride = if args.thorough() { 1 } else { 6 };
     let off = (args.seed % stride) as usize;
+    // the sweep list is the union of the reserved / built-in names, the fixed list of generated names and the identifiers
+    // re-extracted from the exporters' sources: a name that is dropped from RESERVED_NAMES stays in the sweep
+    let introduced = introduced_from_source();
     let mut names: Vec<String> = special.to_vec();
-    for g in GENERATED_NAMES {
-        if !names.iter().any(|n| n == g) {
-            names.push(g.to_string());
+    let mut own: Vec<String> = Vec::new();
+    for g in GENERATED_NAMES.iter().map(|g| g.to_string()).chain(introduced.iter().cloned()) {
+        if !own.contains(&g) && !rssl_knows(&g) {
+            own.push(g.clone());
+        }
+        if !names.iter().any(|n| *n == g) && GENERATED_NAMES.contains(&g.as_str()) {
+            names.push(g);
         }
     }
     for (i, n) in names.iter().enumerate() {
@@ -1924,6 +2037,32 @@ pub fn generate(args: &Args, special: &[String], cx: &mut RCtx, out: &mut Out) -
             }
         }
     }
+    // implicit wave parameters: every name the exporters introduce in every position on all targets; the reserved /
+    // built-in names in a seed-dependent part of the positions (thorough: all) on Metal, one position on HLSL
+    for n in &own {
+        for p in wave_sweep_programs(n) {
+            for t in targets {
+                run_case(t, &p, cx, out);
+                swept += 1;
+            }
+        }
+    }
+    for (i, n) in special.iter().enumerate() {
+        if own.contains(n) {
+            continue;
+        }
+        for (j, p) in wave_sweep_programs(n).iter().enumerate() {
+            if !(j == 1 || (i + j) % stride as usize == off) {
+                continue;
+            }
+            run_case("msl", p, cx, out);
+            swept += 1;
+            if j == 1 {
+                run_case("dx", p, cx, out);
+                swept += 1;
+            }
+        }
+    }
     let mut rng = Rng::new(args.seed ^ 0x5eed_c15b);
     let ordinary: Vec<String> = ["a", "b", "c", "x", "y", "foo", "N", "S", "v"].iter().map(|s| s.to_string()).collect();
     let n = args.n.unwrap_or(if args.thorough() { 6000 } else { 500 });
@@ -1934,5 +2073,16 @@ pub fn generate(args: &Args, special: &[String], cx: &mut RCtx, out: &mut Out) -
             run_case(t, &prog, cx, out);
         }
     }
+    // wave stream (own generator: the stream above keeps its programs per seed)
+    let mut wrng = Rng::new(args.seed ^ 0x3a7e_c15d);
+    let nw = args.n.unwrap_or(if args.thorough() { 2000 } else { 200 });
+    for _ in 0..nw {
+        let items = sanitize(&random_program_with(&mut wrng, &ordinary, special, Some(&own)));
+        let prog = show_program(&items);
+        for t in targets {
+            run_case(t, &prog, cx, out);
+        }
+    }
+    let n = n + nw;
     (swept, n)
 }
